@@ -3,8 +3,8 @@ import market_checks
 import py_checks
 
 PROP = "C04"
-LEAN_MODULES = ["PamsProps.C04", "PamsProps.SimE2E", "PamsProps.SrcRound", "PamsProps.SrcAccept", "PamsProps.SrcCancel"]
-NAMESPACES = ["Pams.C04", "Pams.C04", "Pams.C04", "Pams.C04", "Pams.C04"]      # second: the end-to-end theorems of PamsProps/SimE2E.lean in the same namespace
+LEAN_MODULES = ["PamsProps.C04", "PamsProps.SimE2E", "PamsProps.SrcRound", "PamsProps.SrcAccept", "PamsProps.SrcCancel", "PamsProps.SrcTick"]
+NAMESPACES = ["Pams.C04", "Pams.C04", "Pams.C04", "Pams.C04", "Pams.C04", "Pams.C04"]      # second: the end-to-end theorems of PamsProps/SimE2E.lean in the same namespace
 DRIVERS = ["Market", "Sim", "PyRun"]
 TRUSTED = [
     "modelled, not verified: heapq (abstracted to the sorted list; pop order compared on every state), Order.__eq__-based list.remove, IEEE doubles used only through <,== (monotone integer keys)",
